@@ -53,6 +53,7 @@ func (c *Ctx) runAxisCall(rule string, pkgs []*packages.Package, fileOK func(nam
 				type site struct {
 					call *ast.CallExpr
 					tags []string
+					pos  string // which argument positions carry a tag
 				}
 				byCallee := map[*types.Func][]site{}
 				ast.Inspect(fd.Body, func(nd ast.Node) bool {
@@ -65,27 +66,39 @@ func (c *Ctx) runAxisCall(rule string, pkgs []*packages.Package, fileOK func(nam
 						return true
 					}
 					var tags []string
-					for _, a := range call.Args {
+					pos := ""
+					for i, a := range call.Args {
 						if t := tagOf(a); t != "" {
 							tags = append(tags, t)
+							pos += fmt.Sprintf("%d,", i)
 						}
 					}
 					if len(tags) >= 2 {
-						byCallee[fn] = append(byCallee[fn], site{call, tags})
+						byCallee[fn] = append(byCallee[fn], site{call, tags, pos})
 					}
 					return true
 				})
 				n := 0
-				for fn, sites := range byCallee {
-					single := false
-					for _, s := range sites {
+				for fn, all := range byCallee {
+					// per-axis evidence: a call that is single-axis in the SAME
+					// argument positions
+					singleAt := map[string]bool{}
+					for _, s := range all {
 						same := true
 						for _, t := range s.tags {
 							same = same && t == s.tags[0]
 						}
-						single = single || same
+						if same {
+							singleAt[s.pos] = true
+						}
 					}
-					if !single || len(sites) < 2 {
+					var sites []site
+					for _, s := range all {
+						if singleAt[s.pos] {
+							sites = append(sites, s)
+						}
+					}
+					if len(sites) < 2 {
 						continue
 					}
 					for _, s := range sites {
